@@ -239,7 +239,7 @@ func genGff(r *simrt.RNG) C02Plan {
 		case k < 6:
 			it = GffItem{Kind: "feature", SeqName: genField(r, false), Source: genField(r, false), Feature: genField(r, false),
 				Strand: r.Range(-1, 1), Frame: r.Range(-1, 2)}
-			it.Start = r.Pick(0, 0, 1, r.Intn(100000), math.MaxInt32)
+			it.Start = r.Pick(0, 0, 1, r.Intn(100000), math.MaxInt32, -1, -r.Intn(100000))
 			it.End = it.Start + r.Pick(1, 1, 2, 1+r.Intn(5000))
 			if r.Intn(3) != 0 {
 				it.HasScore = true
@@ -277,7 +277,7 @@ func genGff(r *simrt.RNG) C02Plan {
 			}
 		case k < 8:
 			it = GffItem{Kind: "region", SeqName: genField(r, true)}
-			it.Start = r.Pick(0, 1, r.Intn(100000))
+			it.Start = r.Pick(0, 1, r.Intn(100000), -1, -r.Intn(100000))
 			it.End = it.Start + 1 + r.Intn(5000)
 		default:
 			it = GffItem{Kind: "seq", SeqName: genField(r, true), Alpha: gffAlphas[r.Intn(len(gffAlphas))]}
@@ -388,12 +388,12 @@ func writeFeats(pl *C02Plan) (text []byte, want []string, writes int, v *simrt.V
 		switch it.Kind {
 		case "feature":
 			cols := strings.Split(strings.TrimRight(string(emitted), "\n"), "\t")
-			if len(cols) < 5 || cols[3] != strconv.Itoa(it.Start+1) || cols[4] != strconv.Itoa(it.End) {
+			if it.Start >= 0 && (len(cols) < 5 || cols[3] != strconv.Itoa(it.Start+1) || cols[4] != strconv.Itoa(it.End)) {
 				return nil, nil, 0, viol(site+"-coords", "item %d: feature [%d,%d) written with start/end columns %q (want %d and %d)", i, it.Start, it.End, cols, it.Start+1, it.End)
 			}
 		case "region":
 			cols := strings.Fields(string(emitted))
-			if len(cols) != 4 || cols[2] != strconv.Itoa(it.Start+1) || cols[3] != strconv.Itoa(it.End) {
+			if it.Start >= 0 && (len(cols) != 4 || cols[2] != strconv.Itoa(it.Start+1) || cols[3] != strconv.Itoa(it.End)) {
 				return nil, nil, 0, viol(site+"-coords", "item %d: region [%d,%d) written as %q", i, it.Start, it.End, emitted)
 			}
 		}
@@ -430,6 +430,9 @@ func readFeats(pl *C02Plan, src *simio.Source, limit int) (got []string, v *simr
 		var err error
 		if pv := guard(func() { f, err = rd.Read() }); pv != nil {
 			return got, pv
+		}
+		if src.Spun {
+			return got, &simrt.Violation{Class: "hang", Site: "reader-spins", Text: "reader kept polling an exhausted stream (and swallowed the simulator's stop signal)"}
 		}
 		if err == io.EOF && isNilValue(f) {
 			return got, nil
